@@ -143,6 +143,10 @@ func checkC08(c *Ctx, r *rep.Report) {
 		ruleScalarConstants(r, p)
 		ruleAsm(r, p)
 		ruleArithStructure(r, p)
+		ruleSelector(r, p)
+		ruleSwap(r, p)
+		ruleBitOrigin(r, p, "modm")
+		ruleBitOrigin(r, p, "curve25519")
 	}
 }
 
@@ -184,6 +188,7 @@ func checkC18(c *Ctx, r *rep.Report) {
 		ruleFieldConstants(r, p)
 		ruleUnrolledChains(r, p)
 		ruleBitOrigin(r, p, "curve25519")
+		ruleSwap(r, p)
 		ruleMagnitudes(r, p, "curve25519")
 	}
 }
